@@ -23,12 +23,19 @@ RF32(name) == [ns |-> NoneV, name |-> name, k |-> 0, min |-> NoneV, max |-> None
 RF64(name) == [ns |-> NoneV, name |-> name, k |-> 1, min |-> NoneV, max |-> NoneV, scale |-> NoneV, offset |-> NoneV]
 
 \* ---- scenes
-Proto1 == <<RF32("cartesianX"), RF32("cartesianY"), RF32("cartesianZ"), RInt("colorRed", IntL(0), IntL(7)), RInt("rowIndex", IntL(5), IntL(5)),
+Proto1 == <<RF32("cartesianX"), RF32("cartesianY"), RF32("cartesianZ"), RInt("columnIndex", IntL(0), IntL(7)), RInt("rowIndex", IntL(5), IntL(5)),
             RInt("intensity", IntL(-5), IntL(2042))>>
 Pts1 == [k \in 1..9 |-> <<F32V(k * 11, 16256 + k), F32V(0, 16384), F32V(65535 - k, 49000), IV(k % 8), IV(5), IV(((k * 409) % 2048) - 5)>>]
 Proto2 == <<RF64("cartesianX"), RF64("cartesianY"), RF64("cartesianZ"), RInt("intensity", I64Min, I64Max), RSInt("timeStamp", IntL(0), IntL(1), F64One, F64Zero)>>
 Pts2 == [k \in 1..5 |-> <<F64V(k, 2 * k, 3 * k, 16368 + k), F64V(0, 0, 0, 49152), F64V(65535, 65535, 65535, 32751),
                            LV(3, IF k = 1 THEN I64Min ELSE IF k = 2 THEN I64Max ELSE IF k = 3 THEN IntL(-1) ELSE IF k = 4 THEN IntL(0) ELSE IntL(123456789)), SV(k % 2)>>]
+\* half-defaulted 64-bit ranges (only one of minimum / maximum can be omitted in the XML)
+Proto3 == <<RF32("cartesianX"), RF32("cartesianY"), RF32("cartesianZ"), RInt("intensity", IntL(0), I64Max), RInt("rowIndex", I64Min, IntL(5)),
+            RSInt("timeStamp", IntL(-1), I64Max, F64One, F64Zero)>>
+Pts3 == [k \in 1..6 |-> <<F32V(k, 16256), F32V(k, 16257), F32V(k, 16258),
+                           LV(3, IF k = 1 THEN IntL(0) ELSE IF k = 2 THEN I64Max ELSE IntL(k * 1000003)),
+                           LV(3, IF k = 1 THEN I64Min ELSE IF k = 2 THEN IntL(5) ELSE IntL(-k * 77)),
+                           LV(2, IF k = 1 THEN IntL(-1) ELSE IF k = 2 THEN I64Max ELSE IntL(k))>>]
 \* one integer record of every width (all bit phases with 9 values)
 WMin(w) == IF w = 64 THEN I64Min ELSE IntL(-3)
 WProto(w) == <<RF32("cartesianX"), RF32("cartesianY"), RF32("cartesianZ"),
@@ -85,11 +92,16 @@ SceneCases(name, proto, pts) ==
 
 ASSUME SceneCases("s1", Proto1, AsSeq(Pts1))
 ASSUME SceneCases("s2", Proto2, AsSeq(Pts2))
+ASSUME SceneCases("s3", Proto3, AsSeq(Pts3))
 ASSUME \A w \in Widths : SceneCases("w" \o ToString(w), WProto(w), AsSeq(WPts(w)))
 \* the single-packet layout of the first scene at every start
 ASSUME \A j \in 1..Len(Starts) : Case("s1-at-" \o ToString(Starts[j]), Proto1, AsSeq(Pts1), <<D(Lens(AllStreams(Proto1, AsSeq(Pts1), 1)))>>, Starts[j])
 ASSUME \A j \in 1..Len(Starts) : Case("s1-two-at-" \o ToString(Starts[j]), Proto1, AsSeq(Pts1),
                                          <<D(AllTo(AllStreams(Proto1, AsSeq(Pts1), 1), (j * 3) % 30)), D(Lens(AllStreams(Proto1, AsSeq(Pts1), 1)))>>, Starts[j])
+\* larger first sections: when such a file is copied, the second point cloud lands right behind the first one,
+\* so its section start sweeps over the end of the page payload
+BigPts(n) == [k \in 1..n |-> <<F32V(k * 11, 16256 + (k % 100)), F32V(k, 16384), F32V(65535 - k, 49000), IV(k % 8), IV(5), IV(((k * 409) % 2048) - 5)>>]
+ASSUME \A n \in 50..84 : Case("big-" \o ToString(n), Proto1, AsSeq(BigPts(n)), <<D(Lens(AllStreams(Proto1, AsSeq(BigPts(n)), 1)))>>, 48)
 \* an empty point cloud
 ASSUME Case("empty", Proto1, <<>>, <<>>, 1016)
 
